@@ -288,20 +288,45 @@ func (c *trCtx) stateStmt(s ast.Stmt, ind string, fset *token.FileSet) ([]string
 		}
 		return []string{ind + "let st := { st with " + id.Name + " := " + r + " }"}, nil
 	case *ast.IfStmt:
-		if x.Init != nil || x.Else != nil {
-			return nil, trFail(s, fset, "if with init / else")
+		// if / else if / else chains: one `let st := if … then … else if … then … else …`
+		out := []string{ind + "let st :="}
+		kw := "  if "
+		var cur ast.Stmt = x
+		for cur != nil {
+			switch y := cur.(type) {
+			case *ast.IfStmt:
+				if y.Init != nil {
+					return nil, trFail(y, fset, "if with init")
+				}
+				cond, err := c.expr(y.Cond, fset)
+				if err != nil {
+					return nil, err
+				}
+				body, err := c.stateBlock(y.Body.List, ind+"    ", fset)
+				if err != nil {
+					return nil, err
+				}
+				out = append(out, ind+kw+cond+" then")
+				out = append(out, body...)
+				kw = "  else if "
+				if y.Else == nil {
+					out = append(out, ind+"  else st")
+					cur = nil
+				} else {
+					cur = y.Else
+				}
+			case *ast.BlockStmt:
+				body, err := c.stateBlock(y.List, ind+"    ", fset)
+				if err != nil {
+					return nil, err
+				}
+				out = append(out, ind+"  else")
+				out = append(out, body...)
+				cur = nil
+			default:
+				return nil, trFail(y, fset, "else branch")
+			}
 		}
-		cond, err := c.expr(x.Cond, fset)
-		if err != nil {
-			return nil, err
-		}
-		body, err := c.stateBlock(x.Body.List, ind+"    ", fset)
-		if err != nil {
-			return nil, err
-		}
-		out := []string{ind + "let st :=", ind + "  if " + cond + " then"}
-		out = append(out, body...)
-		out = append(out, ind+"  else st")
 		return out, nil
 	case *ast.SwitchStmt:
 		if x.Init != nil || x.Tag != nil {
